@@ -25,6 +25,10 @@ import MW.Lemmas.LedgerD2Ex
 import MW.Lemmas.LedgerFUEx
 import MW.Lemmas.TxmgrCodecRec
 import MW.Lemmas.LedBytesInv
+import MW.Lemmas.LedBytesWorld
+import MW.Lemmas.LedBytesConnect
+import MW.Lemmas.LedBytesEx
+import MW.Lemmas.LedBytesFullFalse
 namespace MW.Props.C01
 open MW MW.Model.Ledger MW.Spec.Chain MW.Spec.Books MW.Lemmas.Ledger
 
@@ -498,8 +502,20 @@ theorem codec_laws (N : Names) (loc : Model.TxmgrCodec.TxLocB → BlkId × Nat) 
   ⟨cdC_laws N, cdU_laws N, cdD_laws N, cdBal_laws N, cdT_laws N loc, cdSync_laws N, cdWS_laws N, cdA_laws N, cdG_laws N,
    cdM_laws N deser, cdMI_laws N, cdMC_laws N, cdUG_laws N⟩
 
-/-- still open: the laws of the block-record codec `b` (value built by the append loop of updateBlockRecord) -/
-def codec_laws_blocks_full : Prop := ∀ N : Names, (cdB N).Laws
+/-- (Round 6) THE LAWS OF THE BLOCK-RECORD CODEC `b` — the 14th bucket.  Its value is never written in one piece:
+    `valueBlockRecord` writes the 76-byte record of the first transaction, `appendRawBlockRecord` appends a hash and
+    patches the 4-byte counter; `block_record_value` is the closed form the loop builds -/
+theorem codec_laws_blocks_full : ∀ N : Names, (cdB N).Laws := cdB_laws
+
+/-- updateBlockRecord's loop (`blockRecordValue`) builds hash ‖ time ‖ count ‖ hashes (`brFlat`); one more
+    `appendRawBlockRecord` appends one hash and increments the counter; `readRawBlockRecord` reads everything back -/
+theorem block_record_value (h : Bytes) (t : Nat) (txs : List Bytes) (x : Bytes) (hh : h.length = 32) (ht : t < 256 ^ 8)
+    (hne : txs ≠ []) (hn : txs.length < 256 ^ 4) (hx : ∀ y ∈ txs, y.length = 32) (hx' : x.length = 32) :
+    Model.TxmgrCodec.blockRecordValue h t txs = some (brFlat h t txs) ∧
+    Model.TxmgrCodec.appendRawBlockRecord (brFlat h t txs) x = some (brFlat h t (txs ++ [x])) ∧
+    Model.TxmgrCodec.readRawBlockRecordValue (brFlat h t txs) = some ⟨h, t, txs⟩ :=
+  ⟨blockRecordValue_eq h t txs hh ht hne (Nat.le_of_lt hn) hx, appendRawBlockRecord_brFlat h t txs x hh hn hx',
+   readRawBlockRecordValue_brFlat h t txs hh ht hn hx⟩
 
 /-- the typed round trip of the credit VALUE (left open in Round 4): `readCreditValue` reads every well-formed credit
     back from the 45 bytes `valueUnspentCredit` writes — and from any extension of them (the 121-byte spent form) -/
@@ -514,6 +530,24 @@ theorem spend_credit_value (c : Model.TxmgrCodec.CreditValB) (h : c.WF) (hs : c.
     (dk : Model.TxmgrCodec.CredKeyB) (hd : dk.WFd = true) :
     Model.TxmgrCodec.spendCreditValue (enc45 c) dk = .ok (enc45 { c with spent := true } ++ Model.TxmgrCodec.keyDebit dk) :=
   spendCreditValue_enc45 c h hs dk hd
+
+/-- (Round 6) THE INVERSE: unspendRawCredit's rewrite (first 45 bytes, spent bit cleared) of any value that starts with
+    the 45 bytes of a well-formed credit — in particular of the 121-byte spent form `spend_credit_value` produces — is the
+    45-byte unspent form of the same credit; `valueUnminedCreditFromMined` keeps the 45 bytes (flags included) -/
+theorem unspend_credit_value (c : Model.TxmgrCodec.CreditValB) (h : c.WF) (ext : Bytes) :
+    Model.TxmgrCodec.unspendCreditValue (enc45 c ++ ext) = enc45 { c with spent := false } ∧
+    Model.TxmgrCodec.valueUnminedCreditFromMined (enc45 c ++ ext) = some (enc45 c) :=
+  ⟨unspendCreditValue_enc45 c h ext, unminedFromMined_enc45 c h ext⟩
+
+/-- (Round 6) existsRawUnspent's recomposition: outpoint hash (key bytes 42..74) ‖ the 40-byte value ‖ index (key bytes
+    74..78) IS `keyCredit` of that outpoint in the block the unspent value names; and back: bytes 32..72 of a credit key
+    are `valueUnspent` of its block (fetchNsUnspentValueFromRawCredit, used by Rollback) -/
+theorem unspent_credit_key (w h : Bytes) (i : Nat) (b : Model.TxmgrCodec.BlockMetaB) (hw : w.length = 42) (hh : h.length = 32)
+    (hi : i < 256 ^ 4) (hb : b.WF = true) (hk : (⟨h, b, i⟩ : Model.TxmgrCodec.CredKeyB).WF = true) :
+    Model.TxmgrCodec.credKeyOfUnspent (Model.TxmgrCodec.canonicalUnspentKey ⟨w, h, i⟩) (Model.TxmgrCodec.valueUnspent b)
+      = some (Model.TxmgrCodec.keyCredit ⟨h, b, i⟩) ∧
+    Model.TxmgrCodec.fetchNsUnspentValueFromRawCredit (Model.TxmgrCodec.keyCredit ⟨h, b, i⟩) = some (Model.TxmgrCodec.valueUnspent b) :=
+  ⟨credKeyOfUnspent_enc w h i b hw hh hi hb, unspentValue_of_keyCredit ⟨h, b, i⟩ hk⟩
 
 /-- the one height whose 8-byte key is the name "syncedto" of the cursor in the same bucket (≈ 8.3·10^18): the
     hypothesis `keySynced h ≠ syncedToKey` of the sync-bucket lemmas is necessary -/
@@ -547,15 +581,59 @@ theorem sync_on_bytes (E : MW.LedBytes.Env) {sync : AMap.T Bytes Bytes} (hc : Ca
   ⟨fun _ _ hl ht => ⟨(sync_put_height E hc hh hne hl ht).1, (sync_put_height E hc hh hne hl ht).2.1⟩,
    sync_get_height E hc hh hne, (sync_erase_height E hc hh hne).1, (sync_put_cursor sync hh).2⟩
 
-/-- what remains of `ledger_on_bytes`: the same statement for the whole of AddRelevantTx (mined) and of Rollback's
-    inner loop — it needs byte-level versions of insertMinedTx (updateMinedBalance: spendCredit's value rewrite,
-    putDebit, withdrawGame; putTxRecord; the block-record append; removeDoubleSpends on the pending buckets) and of
-    rollbackTx, each simulated like `addCreditsB`; the commuting lemmas (`bucket_access_commutes`) and the codec laws
-    they need are proved, the block-record codec (`codec_laws_blocks_full`) and the byte steps themselves are not -/
+/-- (Round 6) `ledger_on_bytes` — THE WHOLE OF AddRelevantTx FOR A MINED TRANSACTION ON BYTES: existsTxRecord; the block
+    record (putBlockRecord / appendRawBlockRecord); putTxRecord; updateMinedBalance (existsUnspent with the recomposed
+    credit key, spendCredit's 45 → 121 byte rewrite, readRawCreditKey + withdrawGame, putDebit, deleteRawUnspent, the working
+    balance); the removal of the tx's own pending version (deleteUnminedCredits, deleteRawUnmined); removeDoubleSpends with
+    the recursive removeConflict on `m` / `mi` / `mc` / `LG`; AddCredits.  Running the byte-level function and
+    abstracting = abstracting and running `Model.Ledger.addRelevantMined`, every error exit included; the result is
+    canonical again.  Hypotheses: field widths (`TxRecB.WF`, hash / height / time widths), `tr` is the model's reading of the
+    byte-level record (`TxRecB.Abs`), `P : PendEnv` ties mass-core's deserializer and the keystore to the model's, and the
+    block record's 4-byte counter does not wrap (`BlockRoom`: fewer than 2^32 - 1 relevant transactions in the block) -/
+theorem ledger_on_bytes {E : MW.LedBytes.Env} (p : Params) {own : Own} (P : PendEnv E own) {sb : SB} (hC : CanonS E sb.1)
+    {trB : TxRecB} {blk : Model.TxmgrCodec.BlockMetaB} (hw : trB.WF E) (hbh : blk.hash.length = 32)
+    (hbt : blk.height < 256 ^ 8) {time : Nat} (htime : time < 256 ^ 8) {tr : TxRec} (ha : trB.Abs E tr)
+    (hroom : BlockRoom (absStore E sb.1) blk.height) :
+    (addRelevantMinedB p (removeDoubleSpendsB P trB.ins) trB blk time sb).map (absSB E)
+      = addRelevantMined p own (absStore E sb.1) (absBals E.N sb.2) tr (nmBlk E.N blk) ∧
+    ∀ sb', addRelevantMinedB p (removeDoubleSpendsB P trB.ins) trB blk time sb = .ok sb' → CanonS E sb'.1 :=
+  addRelevantMined_full_on_bytes p P hC hw hbh hbt htime ha hroom
+
+/-- (Round 6) removeDoubleSpends alone (also what filterBlock runs on the irrelevant transactions of a block) -/
+theorem remove_double_spends_on_bytes {E : MW.LedBytes.Env} {own : Own} (P : PendEnv E own) {bs : BStore} (hC : CanonS E bs)
+    {ins : List Model.TxmgrCodec.OutPointB} (hw : ∀ o ∈ ins, o.WF = true) (tr : TxRec)
+    (hti : tr.tx.ins.map (fun i => (i.tx, i.idx)) = ins.map (nmOP E.N)) :
+    absStore E (removeDoubleSpendsB P ins bs) = removeDoubleSpends own (absStore E bs) tr ∧
+    CanonS E (removeDoubleSpendsB P ins bs) := removeDoubleSpends_tr_on_bytes P hC hw tr hti
+
+/-- (Round 6) `rollback_tx_on_bytes` — THE INNER LOOP OF Rollback ON BYTES (one transaction of one block record):
+    existsTxRecord / readTxRecordLoc / FetchTxByFileLoc / Delete; coinbase: per output existsCredit, Delete, the keystore
+    lookup, existsUnspent + deleteRawUnspent + Amount.Sub, the address-record repair (first-use height back to 0), the
+    deposit record; ordinary tx: valueUnmined + putRawUnmined, per input putRawUnminedInput, existsDebit + deleteRawDebit,
+    unspendRawCredit (121 → 45 bytes: `unspend_credit_value`), the keystore lookup by script hash,
+    fetchNsUnspentValueFromRawCredit + putRawUnspent, Amount.Add, unwithdrawGame; per output existsCredit, deleteRawCredit,
+    valueUnminedCreditFromMined + putRawUnminedCredit, …, putUnminedGameHistory.  `R : RbEnv` ties the node's block files and
+    the keystore at byte level to the model's `Ctx` -/
+theorem rollback_tx_on_bytes {E : MW.LedBytes.Env} {c : Ctx} (R : RbEnv E c) {sb : SB} (hC : CanonS E sb.1) {txh : Bytes}
+    {blk : Model.TxmgrCodec.BlockMetaB} (hs : StepWF txh blk) {time : Nat} (htime : time < 256 ^ 8) :
+    (rollbackTxB R txh blk time sb).map (absRb E)
+      = rollbackTx c (absStore E sb.1) (absBals E.N sb.2) (nmBlk E.N blk) (E.N.tx txh) ∧
+    ∀ x, rollbackTxB R txh blk time sb = .ok x → CanonS E x.1.1 :=
+  rollbackTx_on_bytes R hC hs htime
+
+/-- the statement of Round 5 WITHOUT width hypotheses.  It is too strong: it quantifies over every `tr` / `blk`, but a
+    byte bucket only ever decodes to tuples whose hashes name 32-byte strings, so e.g. with `asciiNames` a record whose
+    `tx.id` is not 32 characters long has no byte-level counterpart (`ledger_on_bytes_full_false`).  The provable statement
+    is `ledger_on_bytes` above (hypotheses `TxRecB.WF`, `TxRecB.Abs`, `PendEnv`, `BlockRoom`) -/
 def ledger_on_bytes_full : Prop :=
   ∀ (E : MW.LedBytes.Env) (p : Params) (own : Own),
     ∃ (stepB : SB → TxRec → Model.TxmgrCodec.BlockMetaB → M SB), ∀ (sb : SB) (tr : TxRec) (blk : Model.TxmgrCodec.BlockMetaB),
       CanonS E sb.1 → (stepB sb tr blk).map (absSB E) = addRelevantMined p own (absStore E sb.1) (absBals E.N sb.2) tr (nmBlk E.N blk)
+
+/-- (Round 6) … and it IS false: with the Latin-1 naming every credit key a byte bucket decodes to carries a tx id of
+    exactly 32 characters, while `addRelevantMined` on a record with tx id "x" creates a credit under "x" — so no byte-level
+    step can simulate it.  The width / naming hypotheses of `ledger_on_bytes` are necessary -/
+theorem ledger_on_bytes_full_false : ¬ ledger_on_bytes_full := MW.LedBytes.full_false
 
 /-- `inv_on_bytes`: C01's invariant transfers to the byte store along any simulated step: if the byte-level step
     `fB` simulates the ledger step `f` (and keeps the store canonical) and C01 shows `f` takes `Inv … chain` to
@@ -579,6 +657,89 @@ theorem inv_bytes {E : MW.LedBytes.Env} {c : Ctx} {bs : BStore} {chain : List Bl
     syncedToOf bs.sync + 1 = chain.length :=
   ⟨fun _ hw hr => (invB_balance h hw hr).1, fun _ _ hh hne hb => invB_sync h hh hne hb, invB_syncedTo h⟩
 
+/-- (Round 6) `disconnect_block_on_bytes` — disconnectBlock ON BYTES: TxStore.Rollback (FetchAllMinedBalance, the loop
+    over the heights from the cursor down: fetchBlockRecord + the transactions in reverse through `rollback_tx_on_bytes`,
+    deleteBlockRecord, the pending spenders of the removed coinbase credits, UpdateMinedBalances), resetSyncedTo (the delete
+    loop and the cursor), the importing wallets' cursors.  Beside canonicity: the cursor is below the "syncedto" collision
+    height, and the working balances Rollback writes back fit 8 bytes under 42-byte ids (`RollbackBals`, a fact about the
+    bytes the step itself produces).  That Rollback never writes bucket `sync`, that the coinbase outpoints it collects
+    and the heights it visits fit their fields are PROVED (`MW.Lemmas.LedBytesFrame`) -/
+theorem disconnect_block_on_bytes {E : MW.LedBytes.Env} {c : Ctx} (R : RbEnv E c) (P : PendEnv E c.own) {bs : BStore}
+    (hC : CanonS E bs) {height : Nat} (hcur : syncedToOf bs.sync < collisionHeight) (hb : RollbackBals R bs height) :
+    (disconnectBlockB R P bs height).map (absStore E) = disconnectBlock c (absStore E bs) height ∧
+    ∀ bs', disconnectBlockB R P bs height = .ok bs' → CanonS E bs' :=
+  disconnectBlock_on_bytes' R P hC hcur hb
+
+/-- (Round 6) `filter_block_on_bytes` — THE CONNECT STEP ON BYTES: filterBlock's node check, onRelevantBlockConnected
+    (FetchAllMinedBalance restricted to the ready wallets, `ledger_on_bytes` per relevant record, UpdateMinedBalances),
+    RemoveUnminedConflicts on the irrelevant transactions, putSyncedTo (fetchSyncedBlock below / above, putSyncedBucket,
+    cursor).  The relevant records enter through `RelOracle` (byte-level twins of what filterTx computes; the two store
+    reads of filterTx commute: `filter_tx_reads_on_bytes`).  `FilterOut`: facts about the bytes the step produces (room in
+    the block record before every AddRelevantTx, balances written back fit) -/
+theorem filter_block_on_bytes {E : MW.LedBytes.Env} {c : Ctx} (P : PendEnv E c.own) (O : RelOracle E c) {bs : BStore}
+    (hC : CanonS E bs) {ready : List Bytes} {b : Block} {hashB : Bytes} (hh : hashB.length = 32) (hid : E.N.blk hashB = b.id)
+    (hht : b.height + 1 < collisionHeight) {time8 time4 : Nat} (ht8 : time8 < 256 ^ 8) (ht4 : time4 < 256 ^ 4)
+    (hout : FilterOut P O bs ready b hashB time8) :
+    (filterBlockB P O bs ready b hashB time8 time4).map (fun x => (absStore E x.1, x.2))
+      = filterBlock c (absStore E bs) (ready.map E.N.wal) b ∧
+    ∀ x, filterBlockB P O bs ready b hashB time8 time4 = .ok x → CanonS E x.1 :=
+  filterBlock_on_bytes P O hC hh hid hht ht8 ht4 hout
+
+/-- (Round 6) the store reads of filterTx and of the follower commute: ExistCreditFromTx (a key of `c` under the 32-byte
+    hash prefix), the pending transaction under a hash, the ready wallets read off bucket `ws` -/
+theorem filter_tx_reads_on_bytes {E : MW.LedBytes.Env} {own : Own} (P : PendEnv E own) {bs : BStore} (hC : CanonS E bs)
+    {txh : Bytes} (hh : txh.length = 32) {wallets : List Bytes} (hw : ∀ w ∈ wallets, w.length = 42) :
+    existCreditFromTx (absStore E bs) (E.N.tx txh) = existCreditFromTxB bs.c txh ∧
+    AMap.get (absStore E bs).pending (E.N.tx txh) = (pendTxB P bs.m txh).map (TxB.nm E.N) ∧
+    readyWallets (absStore E bs) (wallets.map E.N.wal) = (readyWalletsB bs.ws wallets).map E.N.wal :=
+  ⟨existCreditFromTx_on_bytes E hC hh, pendTx_on_bytes P hC hh, readyWallets_on_bytes E hC hw⟩
+
+/-- (Round 6) histories on the byte store: for ANY byte-level processConnectedBlock `pbB` that simulates
+    `Model.Ledger.processBlock` (`PbSim`), the run on bytes abstracts to the run of the ledger model event by event -/
+theorem run_on_bytes {E : MW.LedBytes.Env} {e : Lemmas.Ledger.Env} {pbB : PbB} (hs : PbSim E e pbB) (evs : List Ev)
+    (w : WorldB) (hC : CanonS E w.bs) :
+    absW E (runWB pbB w evs) = runW e (absW E w) evs ∧ CanonS E (runWB pbB w evs).bs := runWB_abs hs evs w hC
+
+/-- (Round 6) `ledger_correct` ON THE BYTE STORE: after ANY finite history of node events (extend, reorganise to any
+    branch) interleaved in any order with handler steps running on the byte database, if no notification is pending the
+    bytes are canonical and DECODE TO exactly the books of the node's best chain (`InvB` = `CanonS` ∧ `Inv ∘ absStore`),
+    and the follower's tip is the node's tip.  Conditional on `PbSim` for the handler step (see `notes/C01.md` Round 6 for
+    what of `PbSim` is proved: AddRelevantTx, Rollback's inner loop, removeDoubleSpends, AddCredits, the sync bucket) -/
+theorem ledger_correct_on_bytes {E : MW.LedBytes.Env} (e : Lemmas.Ledger.Env) (G : Block) {pbB : PbB} (hs : PbSim E e pbB)
+    (w0 : WorldB) (evs : List Ev) (H : RunHyp e G (absW E w0) evs)
+    (h0 : InvB E (e.ctx w0.chain) w0.bs w0.chain) (hv0 : w0.v.best = tipMeta w0.chain) (hq0 : w0.queue = []) :
+    (runWB pbB w0 evs).queue = [] →
+      InvB E (e.ctx (runWB pbB w0 evs).chain) (runWB pbB w0 evs).bs (runWB pbB w0 evs).chain ∧
+        (runWB pbB w0 evs).v.best = tipMeta (runWB pbB w0 evs).chain :=
+  MW.LedBytes.ledger_correct_on_bytes e G hs w0 evs H h0 hv0 hq0
+
+/-- (Round 6) `process_block_on_bytes` — ONE WHOLE HANDLER STEP (connect and reorg) ON BYTES.  The follower's control
+    structure (alignNew, disconnectDown, the lock-step walk back, connectAll, the volatile update) touches the store only
+    through four primitives; `Prims` packages byte-level versions with their simulations under an invariant `I` they keep
+    (`primsOf`: `disconnectBlockB` / `filterBlockB` / the sync bucket / bucket `ws` are such a package for any `I` that
+    implies their local run hypotheses `Good`).  Then: abstraction of the resulting bytes = the resulting ledger store, same
+    volatile state and verdict, `I` kept — through every loop of reorg, every error exit and every fuel bound -/
+theorem process_block_on_bytes {E : MW.LedBytes.Env} {c : Ctx} (Pr : Prims E c) (hchain : ∀ x ∈ c.node.chain, Pr.BlkOK x)
+    {bs : BStore} (hI : Pr.I bs) {v : Vol} (hbest : v.best.height < collisionHeight) {b : Block} (hb : Pr.BlkOK b) :
+    absStore E (processBlockB Pr bs v b).1 = (processBlock c (absStore E bs) v b).1 ∧
+    (processBlockB Pr bs v b).2 = (processBlock c (absStore E bs) v b).2 ∧
+    Pr.I (processBlockB Pr bs v b).1 :=
+  processBlock_on_bytes Pr hchain hI hbest hb
+
+/-- (Round 6) `ledger_correct` ON THE BYTE STORE WITH THE CONCRETE HANDLER `processBlockB`: along any history whose worlds
+    satisfy the invariant of the primitives and the block-fitness conditions (`AllW Hd.pbB Hd.W`: all are SIZE conditions —
+    heights below the "syncedto" collision height 0x73796e636564746f, balances < 2^64, fewer than 2^32 - 1 relevant
+    transactions per block, hash / time widths), with an empty queue the bytes are canonical and decode to exactly the books
+    of the node's best chain.  What remains for an unconditional statement: derive `AllW` from C01's `Inv` + a supply bound,
+    and replace the relevance oracle by filterTx on bytes (its store reads commute: `filter_tx_reads_on_bytes`) -/
+theorem ledger_correct_on_bytes_run {E : MW.LedBytes.Env} (e : Lemmas.Ledger.Env) (G : Block) (Hd : Handler E e)
+    (w0 : WorldB) (evs : List Ev) (H : RunHyp e G (absW E w0) evs) (hA : AllW Hd.pbB Hd.W w0 evs)
+    (h0 : InvB E (e.ctx w0.chain) w0.bs w0.chain) (hv0 : w0.v.best = tipMeta w0.chain) (hq0 : w0.queue = []) :
+    (runWB Hd.pbB w0 evs).queue = [] →
+      InvB E (e.ctx (runWB Hd.pbB w0 evs).chain) (runWB Hd.pbB w0 evs).bs (runWB Hd.pbB w0 evs).chain ∧
+        (runWB Hd.pbB w0 evs).v.best = tipMeta (runWB Hd.pbB w0 evs).chain :=
+  MW.LedBytes.ledger_correct_on_bytes_run e G Hd w0 evs H hA h0 hv0 hq0
+
 -- the hypotheses are satisfiable: an injective naming, the empty (canonical) database abstracting to the empty ledger
 -- store, a well-formed step and relevant output, a well-formed spent credit
 example : Names := asciiNames
@@ -588,6 +749,19 @@ example : RelB.WF asciiNames ⟨0, List.replicate 42 0x61, false, 1000, .stk 10,
   ⟨by decide, by decide, by decide, by decide, rfl⟩
 example : wfCredit (⟨5, true, false, .staking, 11, List.replicate 32 1⟩,
     some ⟨List.replicate 32 2, ⟨3, List.replicate 32 4⟩, 0⟩) := ⟨⟨by decide, by decide, by decide⟩, rfl, fun _ h => by cases h; decide⟩
+-- Round 6: a keystore knowing one address with its byte-level reading (`PendEnv`, `RbEnv`), a byte-level record that is
+-- well-formed and abstracts to a ledger-model record, and the byte-level AddRelevantTx succeeding on it from the empty
+-- database (one entry each in `c`, `u`, `b`, `t`)
+example : PendEnv MW.LedBytes.Ex.E0 MW.LedBytes.Ex.own0 := MW.LedBytes.Ex.P0
+example : RbEnv MW.LedBytes.Ex.E0 MW.LedBytes.Ex.c0 := MW.LedBytes.Ex.R0
+example : MW.LedBytes.Ex.trB0.WF MW.LedBytes.Ex.E1 ∧ MW.LedBytes.Ex.trB0.Abs MW.LedBytes.Ex.E1 MW.LedBytes.Ex.tr0 :=
+  ⟨MW.LedBytes.Ex.trB0_wf, MW.LedBytes.Ex.trB0_abs⟩
+example : ∃ sb', addRelevantMinedB {} (fun bs => bs) MW.LedBytes.Ex.trB0 ⟨5, MW.LedBytes.Ex.h32 9⟩ 77 ({}, []) = .ok sb' ∧
+    sb'.1.c.length = 1 ∧ sb'.1.u.length = 1 ∧ sb'.1.b.length = 1 ∧ sb'.1.t.length = 1 := MW.LedBytes.Ex.step0_ok
+example : RollbackBals MW.LedBytes.Ex.R0 {} 1 ∧ BlockRoom (absStore MW.LedBytes.Ex.E0 {}) 5 :=
+  ⟨fun acc h => (MW.LedBytes.Ex.rollbackOut_empty acc h).1, MW.LedBytes.Ex.blockRoom_empty _ 5⟩
+example : (⟨List.replicate 32 1, 5, [List.replicate 32 2, List.replicate 32 3]⟩ : Model.TxmgrCodec.BlockRecB).WF :=
+  ⟨by decide, by decide, by decide, by decide, by decide⟩
 end LedBytes
 
 end MW.Props.C01
